@@ -266,7 +266,7 @@ func genCompilable(g *G) *cFile {
 		}
 		switch g.R.Intn(4) {
 		case 0:
-			st := g.R.Pick("Cyclic", "Event", "None", "Periodic", "OnEvent", "cyclicIfActive", "weird")
+			st := g.R.Pick("Cyclic", "Event", "None", "Periodic", "OnEvent", "cyclicIfActive", "weird", "FixedPeriodic", "EnabledPeriodic", "EventPeriodic", "eventperiodic")
 			if sendEnum {
 				idx := g.R.Intn(4)
 				st = []string{"Cyclic", "Event", "None", "Periodic"}[idx]
@@ -279,7 +279,7 @@ func genCompilable(g *G) *cFile {
 				meta(fmt.Sprintf("BA_ \"GenMsgSendType\" BO_ %d \"%s\";", m.id, st))
 			}
 			switch strings.ToLower(st) {
-			case "cyclic", "periodic", "cyclicifactive":
+			case "cyclic", "periodic", "cyclicifactive", "fixedperiodic", "enabledperiodic", "eventperiodic":
 				m.sendType = 1
 			case "event", "onevent":
 				m.sendType = 2
@@ -502,7 +502,33 @@ func mustF(s string) float64 {
 	return f
 }
 
+// sendTypeTable: every spelling of a send type the library documents (descriptor.SendType.UnmarshalString), with the
+// send type it denotes (1 cyclic, 2 event), in several letter cases, and near misses that denote none
+func sendTypeTable() [][2]string {
+	var out [][2]string
+	add := func(s string, v string) {
+		for _, x := range []string{s, strings.ToLower(s), strings.ToUpper(s), strings.ToUpper(s[:1]) + strings.ToLower(s[1:])} {
+			out = append(out, [2]string{x, v})
+		}
+	}
+	for _, s := range []string{"Cyclic", "CyclicIfActive", "Periodic", "FixedPeriodic", "EnabledPeriodic", "EventPeriodic"} {
+		add(s, "1")
+	}
+	for _, s := range []string{"Event", "OnEvent"} {
+		add(s, "2")
+	}
+	for _, s := range []string{"None", "NoMsgSendType", "Cyclic ", " Event", "Events", "OnEvents", "EventCyclic", "IfActive", "Spontaneous", "x"} {
+		add(s, "0")
+	}
+	out = append(out, [2]string{"", "0"})
+	return out
+}
+
 func genC05(g *G) {
+	for _, e := range sendTypeTable() {
+		g.Emit("sendtype %s %s", HexS([]byte(e[0])), e[1])
+	}
+	g.Tag("send-type-table")
 	n := g.N(150, 3000)
 	perms := g.N(6, 24)
 	for i := 0; i < n; i++ {
@@ -524,6 +550,13 @@ func genC05(g *G) {
 
 func init() {
 	RegGen("C05", genC05)
+	RegExec("sendtype", func(a []string) string {
+		var st descriptor.SendType
+		if err := st.UnmarshalString(string(Hex(a[0]))); err != nil {
+			return "err"
+		}
+		return fmt.Sprint(uint8(st))
+	})
 	RegExec("cmp", func(a []string) string { return compileDump(Hex(a[0])) })
 	RegExec("cmpx", func(a []string) string { return compileDump(Hex(a[0])) })
 }
